@@ -110,6 +110,9 @@ def triage(c, ops_file, impl_file, model_file, hbin, exe, max_per_sig=2, max_tot
         sig = (tuple(kinds[:3]), tail, cfg[1] if cfg else "?")
         groups.setdefault(sig, []).append(inputs)
     c.cov["failing_case_groups"] = len(groups)
+    c.cov["failing_cases"] = sum(len(v) for v in groups.values())
+    c.cov["failing_cases_note"] = ("disagreements_checked counts op LINES; all lines of a case that runs into the known finding "
+                                   "(endless NotLeader hint cycle) disagree from the first refused refill on")
     # distinct failure kinds first, then the rest
     order = sorted(groups.items(), key=lambda kv: (min(len(x) for x in kv[1]), str(kv[0])))
     seen_kind = set()
